@@ -432,7 +432,9 @@ type c02VPPlan struct {
 	Forge  bool // signature made with a key that is not the signer's
 	// Tamper, after honest signing: "retarget" = the presentation was signed for another audience and its aud/domain is
 	// then rewritten to the one planned here; "strip" = the signature is removed (JWT: alg none).
-	Tamper  string
+	Tamper string
+	// IatOnly (JWT only): the creation date is carried by the 'iat' claim and there is no 'nbf' (the node reads nbf, else iat)
+	IatOnly bool
 	Format  string // jwt_vp | ldp_vp
 	Creds   []*c02CredPlan
 	Aud     *string
@@ -462,6 +464,9 @@ func (fx *c02Fixture) buildPresentation(x *h.Ctx, p *c02VPPlan, now time.Time) v
 		e := now.Add(*p.Expires)
 		opts.ProofOptions.Expires = &e
 	}
+	if p.IatOnly && p.Format == vc.JWTPresentationProofFormat && p.Tamper == "" {
+		return fx.buildIatOnlyJWTPresentation(x, p, creds, now)
+	}
 	w := fx.wallet
 	if p.Forge {
 		w = fx.forger
@@ -476,6 +481,38 @@ func (fx *c02Fixture) buildPresentation(x *h.Ctx, p *c02VPPlan, now time.Time) v
 		vp, err = vc.ParseVerifiablePresentation(raw)
 		x.NoErr(err, "parse tampered presentation")
 	}
+	return *vp
+}
+
+// buildIatOnlyJWTPresentation mirrors the node wallet's buildJWTPresentation, except that the creation date travels in
+// 'iat' and 'nbf' is absent (the wallet itself always writes nbf).
+func (fx *c02Fixture) buildIatOnlyJWTPresentation(x *h.Ctx, p *c02VPPlan, creds []vc.VerifiableCredential, now time.Time) vc.VerifiablePresentation {
+	signer := c02Keys[p.Signer]
+	holderURI := signer.did.URI()
+	claims := map[string]interface{}{
+		"sub": signer.did.String(),
+		"jti": fmt.Sprintf("%s#vp-%d", signer.did.String(), now.UnixNano()),
+		"iat": now.Add(p.Created).Unix(),
+		"vp": vc.VerifiablePresentation{
+			Context:              []ssi.URI{vc.VCContextV1URI()},
+			Type:                 []ssi.URI{vc.VerifiablePresentationTypeV1URI()},
+			Holder:               &holderURI,
+			VerifiableCredential: creds,
+		},
+	}
+	if p.Nonce != nil {
+		claims["nonce"] = *p.Nonce
+	}
+	if p.Aud != nil {
+		claims["aud"] = *p.Aud
+	}
+	if p.Expires != nil {
+		claims["exp"] = now.Add(*p.Expires).Unix()
+	}
+	tok, err := c02Signer{forge: p.Forge}.SignJWT(c02Ctx(), claims, map[string]interface{}{"typ": "JWT"}, signer.kid)
+	x.NoErr(err, "sign iat-only jwt presentation")
+	vp, err := vc.ParseVerifiablePresentation(tok)
+	x.NoErr(err, "parse iat-only jwt presentation")
 	return *vp
 }
 
